@@ -24,11 +24,12 @@ TNext ==
           /\ Flag(\A m \in Members : ~DialPending(m), "the connection loop of a validator did not dial the address the book holds for it")
        \/ /\ Ev.e = "ack"                                    \* the RPC returned; the real book was read
           /\ UNCHANGED <<dvars, lastok>>
-          /\ Flag(Ev.ok = lastok /\ Ev.others = 0 /\ \A m \in Members : Ev.book[m] = book[m],
+          \* the RPC outcome itself is not part of the property (a node may acknowledge a batch it ignores): reported as drift only
+          /\ (Ev.ok # lastok) => PrintT(<<"DRIFT", "rpc outcome differs from the specification at event", l, Ev.ok, lastok>>)
+          /\ Flag(Ev.others = 0 /\ \A m \in Members : Ev.book[m] = book[m],
                   IF Ev.others # 0 THEN "an announcement by a non-member is stored in the address book"
-                  ELSE IF Ev.ok # lastok THEN (IF lastok THEN "a valid batch was rejected" ELSE "an invalid batch (forged newer entry / duplicated key) was acknowledged")
-                  ELSE IF lastok THEN "after an accepted batch the address book differs from the specification"
-                  ELSE "a rejected batch changed the address book")
+                  ELSE IF lastok THEN "after a valid batch the address book differs from the specification"
+                  ELSE "a rejected batch (forged newer entry / duplicated key) changed the address book")
        \/ /\ Ev.e = "dial"                                   \* a connection arrived at the listener of (m, a)
           /\ lastdial' = [lastdial EXCEPT ![Ev.m] = Ev.a]
           /\ dials' = dials \cup {<<Ev.m, Ev.a>>}
